@@ -57,6 +57,10 @@ fn stage(i: &Input, c: &mut Case) -> Result<(), String> {
         2 => TOL_OVER,
         _ => TOL_HIER | TOL_OVER,
     };
+    // end-of-stream closing off (a source that may deliver more later) must not change what recovery finds: only the Ends that closing
+    // would have added at the very end are missing, in the damaged and in the undamaged reading alike
+    let eof_close = !t.chance(1, 4);
+    c.label_if(!eof_close, "eof_closing_off");
     c.label_if(tolerate != 0, "tolerant_configuration");
     c.label_if(capacity.is_some(), "small_capacity");
     c.label_if(k >= 16, "junk_of_16_bytes_or_more");
@@ -68,7 +72,7 @@ fn stage(i: &Input, c: &mut Case) -> Result<(), String> {
     let mut units = 0u64;
     let (mut n_true, mut n_false, mut n_deep) = (0u64, 0u64, 0u64);
     with_spec!(d.spec, T => {
-        let u = read_all::<T>(&bytes, &ReadCfg::strict());
+        let u = read_all::<T>(&bytes, &ReadCfg { eof_close, ..ReadCfg::strict() });
         if first_err(&u).is_some() {
             return Err(format!("harness/C01: the undamaged document does not read cleanly: {}\n  {}", render_obs(&u), describe_doc(&d)));
         }
@@ -97,7 +101,7 @@ fn stage(i: &Input, c: &mut Case) -> Result<(), String> {
                 }
             };
             let ctx = |m: String, hist: &Vec<String>| format!("{}\n  junk {} inserted at offset {} (precondition {})\n  history: {}\n  undamaged: {}\n  doc: {}", m, hex(&junk), p, pre, hist.join(", "), render_obs(&u), render_forest(&d.forest));
-            let cfg = ReadCfg { max_size: safe_max_size(&dmg, MaxSize::Untouched).0, capacity, tolerate, ..ReadCfg::default() };
+            let cfg = ReadCfg { max_size: safe_max_size(&dmg, MaxSize::Untouched).0, capacity, tolerate, eof_close, ..ReadCfg::default() };
             // source: one slice, or the damaged stream handed out in small reads (so that the scan has to refill the buffer)
             let steps: Vec<RStep> = if chunk == 0 { vec![] } else { (0..dmg.len().div_ceil(chunk)).map(|_| RStep::Chunk(chunk)).collect() };
             let mut rd = match Rd::<T, _>::new(ScriptRead::new(&dmg[..], steps), &cfg) {
